@@ -1,3 +1,48 @@
-rc_target("c05_base64hex", flavour="asan", portable_encoding=True)
-plan("C05", [T("c05_base64hex", 5000, 50000)], min_nt=100,
-     rule="tbd", technique="tbd", level_text="tbd", assumptions=[])
+# Both targets link a second object compiled from source/encoding.c WITHOUT USE_SIMD_ENCODING (symbols renamed pt_*): the
+# portable base64 code next to the default build, which takes the AVX2 path on this CPU.
+# ASAN_OPTIONS as for C16: the harnesses allocate an exact-size heap block per library call (so that an over-read is an
+# ASan report); with the default allocation-stack recording rapidcheck's deep, ever-different stacks make every worker
+# grow by several kB per case, which a thorough run cannot afford.
+_C05_ENV = {"ASAN_OPTIONS": "detect_leaks=0:abort_on_error=1:allocator_may_return_null=1:detect_stack_use_after_return=0:"
+                            "handle_abort=0:malloc_context_size=0:quarantine_size_mb=16"}
+rc_target("c05_base64hex", flavour="asan", portable_encoding=True, env=_C05_ENV)
+rc_target("c05_utf8", flavour="asan", portable_encoding=True, env=_C05_ENV)
+plan("C05", [T("c05_base64hex", 20000, 200000), T("c05_utf8", 30000, 300000)], min_nt=29000,
+     rule="base64/hex: an input of >=25 bytes (>32 characters for decode), or a decode text whose mutation lies in the final quantum, or a "
+          "256-value sweep of one final-quantum position; UTF-8: a generated cut point inside a multi-byte sequence",
+     technique="property-based differential testing (rapidcheck): the default build (AVX2 path) and a portable build of source/encoding.c linked "
+               "side by side under renamed symbols, both compared on every input with each other and with a table-free bit-stream reference "
+               "codec written in the harness; outputs into guard-framed buffers pre-filled twice with different bytes; inputs in exact-size "
+               "heap blocks under ASan; UTF-8 one-shot decoding compared with incremental decoding under generated chunkings",
+     level_text="Exhaustive only over the final quantum of short inputs: on every run regress/C05/full_sweep.replay puts every byte value 0..255 "
+                "at every position of the final quantum for every input length 0..100 (hex: 0..40, even and odd text length) through base64 "
+                "encode + round trip, base64 decode of the canonical text with that one character replaced, hex encode and hex decode, on "
+                "both builds and against the reference codec (about 2*10^5 inputs). Beyond that a generated search: byte strings of 0..700 "
+                "bytes with lengths concentrated on 0..12, 19..36 and the neighbours of 48/56/64/72/96 (all residues mod 3, 4, 24, 32; both "
+                "AVX2 loop thresholds), output capacity in {exact, exact-1, 0, exact+1, exact+40}, existing length 0/1/7 for the appending "
+                "encoders; decode texts are canonical encodings mutated in one of eight ways (one character replaced by any byte, padding "
+                "moved / added / removed, length changed, non-zero trailing bits, two encodings concatenated, random alphabet text); length "
+                "predictors and the encoders' checked arithmetic at 2^32..2^64-1. UTF-8: harness-encoded code-point sequences over all "
+                "length boundaries, undamaged or damaged in one of eight ways, each decoded one-shot, under a generated chunking (60% of the "
+                "cut points inside a multi-byte sequence, repeated cut points = empty chunks), byte-at-a-time and under the mirrored "
+                "chunking by one re-used decoder object, with and without a callback, and with a callback failing at the k-th code point. "
+                "Sampling, not proof, outside the swept set.",
+     assumptions=["the default build takes the AVX2 path only on a CPU with AVX2 (class default_build_on_avx2_path counts the cases where it did; "
+                  "without AVX2 the differential part is vacuous and only the reference comparison remains); AWS_COMMON_AVX2 is removed from the environment",
+                  "aws_hex_encode, aws_hex_decode and aws_base64_decode are called with an empty output buffer (len 0), as their documentation assumes; "
+                  "aws_base64_encode and aws_hex_encode_append_dynamic append and are checked for that",
+                  "when a decode text is malformed AND the capacity is below the predicted length either SHORT_BUFFER or the INVALID_* error is accepted "
+                  "(but the same one on both builds)",
+                  "after a failed decode only return value, error code and len are compared between the builds, not the buffer content; after "
+                  "SHORT_BUFFER the output (len and bytes) must be untouched",
+                  "bytes between the reported len and the capacity are not asserted; bytes outside the capacity (64-byte guards) must never change",
+                  "aws_hex_compute_decoded_len(SIZE_MAX) may report overflow although 2^63 fits (no buffer of that size exists); every other "
+                  "predictor must fail exactly when the true length exceeds SIZE_MAX",
+                  "lengths >= 2^32 are only passed to calls whose checked arithmetic or capacity test must refuse before the input is read "
+                  "(never to aws_base64_decode, which looks at the last two characters first)",
+                  "UTF-8: the property is chunking-invariance; in addition texts that are valid or invalid BY CONSTRUCTION in the generator "
+                  "(harness-encoded scalar values; exactly one truncated / overlong / surrogate / stray-continuation / invalid-lead / broken-"
+                  "continuation defect) must get the verdict RFC 3629 and encoding.h document; code points above U+10FFFF and random byte "
+                  "strings carry no expected verdict (the decoder's acceptance of > U+10FFFF is outside this property)",
+                  "after a failed aws_utf8_decoder_update the harness calls aws_utf8_decoder_reset before re-using the decoder; after "
+                  "finalize it re-uses it directly"])
